@@ -50,8 +50,14 @@ def _with_id(ev, i):
     return e
 
 
-def run_real(kinds, inp):
-    """returns dict(out=[ids], log=[(stage,id)], emis={stage:[ids...]}, drains=[stage...])"""
+STATELESS = ("pass", "drop", "dup", "expand", "dropall")
+
+
+def run_real(kinds, inp, shared=False):
+    """returns dict(out=[ids], log=[(stage label,id)], emis={stage:[ids...]}, drains=[stage...]).
+    shared=True: every stateless behaviour is ONE callback object registered without a context (a
+    stateless stage written against the developer README and registered more than once); its
+    deliveries are logged under the behaviour's name because the callback cannot know its position."""
     import aiu_trace_analyzer.pipeline as ep
     import aiu_trace_analyzer.pipeline.barrier as barrier_mod
     from aiu_trace_analyzer.core.processing import EventProcessor
@@ -105,7 +111,28 @@ def run_real(kinds, inp):
         cb.__name__ = f"{kind}{i}"
         return cb, ctx
 
-    names = ["pipeline_barrier" if k == "barrier" else f"{k}{i}" for i, k in enumerate(kinds)]
+    shared_cbs = {}
+
+    def mk_shared(kind):
+        if kind not in shared_cbs:
+            def cb(event, context):
+                x = event["args"]["id"]
+                log.append((kind, x))
+                if kind == "pass":
+                    return [event]
+                if kind == "drop":
+                    return [] if x % 2 == 0 else [event]
+                if kind == "dup":
+                    return [event, _with_id(event, x + 1000)]
+                if kind == "expand":
+                    return [_with_id(event, x + 2000), event, _with_id(event, x + 3000)]
+                return []
+            cb.__name__ = kind
+            shared_cbs[kind] = cb
+        return shared_cbs[kind]
+
+    names = ["pipeline_barrier" if k == "barrier" else (k if shared and k in STATELESS else f"{k}{i}")
+             for i, k in enumerate(kinds)]
     prof_data = {"stages": [{n: True} for n in names]}
     profile = StageProfile(copy.deepcopy(prof_data), copy.deepcopy(prof_data)) if names else None
     if profile is None:
@@ -139,10 +166,11 @@ def run_real(kinds, inp):
                     return ep.pipeline_barrier(event, context)
                 b.__name__ = "pipeline_barrier"
                 proc.register_stage(b, bctx)
+            elif shared and k in STATELESS:
+                proc.register_stage(mk_shared(k), None)
             else:
                 cb, c = mk(k, i)
                 proc.register_stage(cb, c)
-        assert len(proc.stages) == len(kinds) + 1, "a stage was skipped by the profile"
         out = []
 
         class Exp:
@@ -165,8 +193,25 @@ def run_real(kinds, inp):
 # oracle (from the statement, on what the real callbacks observed)
 # ---------------------------------------------------------------------------------------------
 
-def oracle(kinds, inp, r):
+def compose(kinds, inp):
+    """the statement applied to stateless stages: each returned event is handed once, in order, to the next"""
+    xs = list(inp)
+    for k in kinds:
+        ys = []
+        for x in xs:
+            ys += {"pass": [x], "drop": [] if x % 2 == 0 else [x], "dup": [x, x + 1000],
+                   "expand": [x + 2000, x, x + 3000], "dropall": []}[k]
+        xs = ys
+    return xs
+
+
+def oracle(kinds, inp, r, shared=False):
     n = len(kinds)
+    if all(k in STATELESS for k in kinds) and r["out"] != compose(kinds, inp):
+        return ("engine-delivery", f"stateless pipeline {kinds} exported {r['out']}, the composition of its stages gives "
+                                   f"{compose(kinds, inp)}")
+    if shared:
+        return None   # per-stage bookkeeping is ambiguous when one callback object serves several positions
     recv = {i: [x for (j, x) in r["log"] if j == i] for i in range(n)}
     if n == 0:
         return None if r["out"] == list(inp) else ("engine-delivery", "empty pipeline does not export its input")
@@ -213,19 +258,24 @@ def gen_cases(ctx: Ctx):
     for n in range(0, L + 1):
         for kinds in itertools.product(KINDS, repeat=n):
             for m in range(0, 4):
-                yield list(kinds), list(range(1, m + 1))
+                yield list(kinds), list(range(1, m + 1)), False
+    # the same behaviour registered at several positions with ONE callback object and no context
+    for n in range(1, 4):
+        for kinds in itertools.product(KINDS, repeat=n):
+            if len(set(k for k in kinds if k in STATELESS)) < len([k for k in kinds if k in STATELESS]):
+                yield list(kinds), [1, 2, 3], True
     ctx.extra["exhaustive_upto_len"] = L
     for _ in range(ctx.n(1500, 30000)):
         n = ctx.rng.randint(1, 12)
         kinds = [ctx.rng.choice(KINDS if ctx.rng.random() < 0.7 else ["pass", "dup", "hold", "barrier", "delay"]) for _ in range(n)]
         inp = [ctx.rng.randint(1, 99) for _ in range(ctx.rng.randint(0, 30))]
-        yield kinds, inp
+        yield kinds, inp, ctx.rng.random() < 0.3
 
 
 def oracle_on_case(ctx: Ctx, case, verbose=False):
     kinds, inp = case["kinds"], case["input"]
-    r = run_real(kinds, inp)
-    v = oracle(kinds, inp, r)
+    r = run_real(kinds, inp, case.get("shared", False))
+    v = oracle(kinds, inp, r, case.get("shared", False))
     if verbose:
         print("real:", r)
     if v:
@@ -235,10 +285,11 @@ def oracle_on_case(ctx: Ctx, case, verbose=False):
 
 def run(ctx: Ctx):
     cases, reals = [], []
-    for kinds, inp in gen_cases(ctx):
-        case = {"kinds": kinds, "input": inp}
+    for kinds, inp, shared in gen_cases(ctx):
+        case = {"kinds": kinds, "input": inp, "shared": shared}
         r = oracle_on_case(ctx, case)
-        ctx.case_done(case, key=(tuple(kinds), tuple(inp)), nontrivial=nontrivial(kinds, inp, r))
+        ctx.case_done(case, key=(tuple(kinds), tuple(inp), shared), nontrivial=nontrivial(kinds, inp, r))
+        ctx.count("shared_callback_cases", int(shared))
         ctx.count("graphs_with_barrier", int("barrier" in kinds))
         ctx.count("graphs_with_two_barriers", int(kinds.count("barrier") >= 2))
         ctx.count("graphs_with_holder_before_barrier", int(any(k in ("hold", "rev", "delay") for k in kinds[:kinds.index("barrier")]) if "barrier" in kinds else 0))
@@ -250,20 +301,23 @@ def run(ctx: Ctx):
     outs = ctx.driver.ask([line(c["kinds"], c["input"]) for c in cases])
     for case, r, o in zip(cases, reals, outs):
         m = parse_model(o)
+        sh = case.get("shared", False)
+        lab = [k if (sh and k in STATELESS) else i for i, k in enumerate(case["kinds"])]
         ctx.compare("engine model vs EventProcessor/Engine.run (exported ids + delivery log)", case,
-                    {"out": m["out"], "log": [list(x) for x in m["log"]]},
+                    {"out": m["out"], "log": [[lab[i], x] for (i, x) in m["log"]]},
                     {"out": r["out"], "log": [list(x) for x in r["log"]]})
 
 
 def shrink(ctx: Ctx, case, classifier):
     kinds, inp = list(case["kinds"]), list(case["input"])
+    sh = case.get("shared", False)
 
     def bad(k, i):
         try:
-            r = run_real(k, i)
+            r = run_real(k, i, sh)
         except Exception:
             return False
-        v = oracle(k, i, r)
+        v = oracle(k, i, r, sh)
         return v is not None and v[0] == classifier
     changed = True
     while changed:
@@ -278,7 +332,7 @@ def shrink(ctx: Ctx, case, classifier):
             if bad(kinds, i2):
                 inp, changed = i2, True
                 break
-    return {"kinds": kinds, "input": inp}
+    return {"kinds": kinds, "input": inp, "shared": sh}
 
 LEVEL_TEXT = ("Lean theorems over a model of EventProcessor/Engine for arbitrary stage callbacks, states, pipeline "
               "lengths and inputs: the streaming engine equals sequential batch composition (run_eq_runSpec); the "
